@@ -22,7 +22,8 @@ ASSUMPTIONS = ["isomorphism by brute force over permutations (n<=7) / networkx V
                "explorers are called with node labels 0..n-1 in order (what every caller passes)",
                "lc_orbit_finder(rep_allowed=True) is only generated with a size threshold or depth (it never terminates otherwise)"]
 REQUIRED_CLASSES = {"iso": ["symmetric", "label_map", "sort_emit", "n>=8", "n_iso>found"],
-                    "orbit": ["with_iso", "rand", "rep_allowed", "out>=3", "linear_even_n>=8"]}
+                    "orbit": ["with_iso", "rand", "rep_allowed", "out>=3", "linear_even_n>=8"],
+                    "iso_large": ["n>=65"]}
 
 
 def _adj(h, n):
@@ -160,6 +161,38 @@ def check_iso(case, sub="iso"):
             if len(mats) > distinct:
                 raise Violation(sub, "count", "iso_finder", icls, "more matrices than distinct relabellings exist")
     return Info(nontrivial=("symmetric" in cl and n_iso > 2), classes=cl)
+
+
+def check_iso_large(case, sub="iso_large"):
+    """iso_finder on 60..72 vertices (beyond 64-bit packing limits): symmetric 0/1 matrices, the input first, pairwise distinct,
+    never more than requested, each isomorphic to the input (networkx VF2 as the trusted isomorphism test at this size)"""
+    import networkx as nx
+
+    import graphiq.utils.relabel_module as rm
+
+    n = case["n"]
+    rng = np.random.default_rng(case["seed"])
+    a = np.triu((rng.random((n, n)) < case["p"]).astype(int), 1)
+    a = a + a.T
+    g = nx.from_numpy_array(a)
+    np.random.seed(case["seed"] % (2**32))
+    mats = guarded(sub, "plain", rm.iso_finder, a.copy(), case["n_iso"], seed=case["seed"])
+    mats = [np.asarray(m_) for m_ in mats]
+    if not mats or len(mats) > case["n_iso"]:
+        raise Violation(sub, "count", "iso_finder", "plain", "%d matrices for n_iso=%d" % (len(mats), case["n_iso"]))
+    if not np.array_equal((mats[0] != 0).astype(int), a):
+        raise Violation(sub, "input-not-first", "iso_finder", "plain", "first matrix is not the input")
+    seen = set()
+    for k, m_ in enumerate(mats):
+        b = (m_ != 0).astype(int)
+        if b.shape != (n, n) or not np.array_equal(b, b.T) or np.any(np.diag(b)):
+            raise Violation(sub, "not-simple", "iso_finder", "plain", "matrix #%d is not a symmetric adjacency matrix (n=%d)" % (k, n))
+        if b.tobytes() in seen:
+            raise Violation(sub, "duplicates", "iso_finder", "plain", "matrix #%d repeats an earlier one" % k)
+        seen.add(b.tobytes())
+        if not nx.is_isomorphic(nx.from_numpy_array(b), g):
+            raise Violation(sub, "not-isomorphic", "iso_finder", "plain", "matrix #%d is not isomorphic to the input (n=%d)" % (k, n))
+    return Info(nontrivial=(len(mats) >= 2 and n >= 65), classes=["n>=65"] if n >= 65 else ["n<65"])
 
 
 def check_orbit(case, sub="orbit"):
@@ -320,6 +353,9 @@ SUBS = [
     Sub("iso", check_iso, strategy=strat_iso, n={"quick": 60, "thorough": 1200}, timeout={"quick": 60, "thorough": 120}),
     Sub("iso_named", lambda c: check_iso(c, "iso"), enum=enum_iso_named,
         doc="highly symmetric inputs (complete, empty, star, ring, path) n<=6 x n_iso in {1,2,5,30}"),
+    Sub("iso_large", check_iso_large, strategy=lambda tier: st.fixed_dictionaries({
+        "n": st.integers(60, 72), "p": st.sampled_from([0.05, 0.1, 0.3]), "n_iso": st.integers(2, 4), "seed": st.integers(0, 10**6)}),
+        n={"quick": 6, "thorough": 60}, timeout={"quick": 120, "thorough": 300}, doc="iso_finder on random graphs with 60-72 vertices"),
     Sub("orbit", check_orbit, strategy=strat_orbit, n={"quick": 60, "thorough": 1200}, timeout={"quick": 60, "thorough": 120}),
     Sub("isocheck", check_isocheck, strategy=strat_isocheck, n={"quick": 60, "thorough": 800}),
 ]
